@@ -249,9 +249,10 @@ fn body() -> BoxedStrategy<(Vec<u8>, bool)> {
         1 => hermes_strategy(p).prop_map(|h| h.to_doc().to_json_no_header()),
         2 => index_strategy(MMParams { max_tokens: 6, ..p }, 1).prop_map(|i| i.to_json_no_header()),
     ];
-    let lead = proptest::sample::select(vec!["", "", "", " ", "\t", "\n", " \n", "\r\n"]);
+    let lead = proptest::sample::select(vec!["", "", "", " ", "\t", "\n", " \n", "\r\n", "\u{feff}", "\u{feff} "]);
     prop_oneof![
-        6 => (lead, valid.clone()).prop_map(|(l, s)| (format!("{l}{s}").into_bytes(), true)),
+        // (a byte order mark is not JSON white space: such a body is a document every path must refuse alike)
+        6 => (lead, valid.clone()).prop_map(|(l, s)| (format!("{l}{s}").into_bytes(), !l.starts_with('\u{feff}'))),
         1 => (valid.clone(), any::<u16>()).prop_map(|(s, at)| {
             let b = s.into_bytes();
             let n = idx16(at, b.len() + 1);
